@@ -1298,6 +1298,10 @@ func SelectExpr(query *Query, current Map, expr *sqlparser.SelectExprs, opts ...
 				if fuse, ok := valueRaw.(Fuse); ok {
 					prefix := expr.As.String()
 					for key, value := range fuse {
+						// the navigation marker of a scoped row (FUSE over a sub-query on dual) is not data
+						if key == "<-" {
+							continue
+						}
 						if len(prefix) > 0 {
 							data[fmt.Sprintf("%s.%s", prefix, key)] = value
 							continue
